@@ -53,3 +53,22 @@ package server
 //@     | && (trErr != nil && !isStatus(trErr) ==> arg2.Status.Message == errText(trErr))
 //@   ensures[C06.trailer_once] atlock(ss.protected.trailersSent) ==> result != nil && ncalls("(types.RpcReadWriter).Write") == old(ncalls("(types.RpcReadWriter).Write"))
 //@   ensures[C06.trailer_always_attempted C02.trailer_always_attempted] !atlock(ss.protected.trailersSent) ==> ncalls("(types.RpcReadWriter).Write") == old(ncalls("(types.RpcReadWriter).Write")) + 1 && ss.protected.trailersSent && ss.protected.headersSent
+
+// ---------------------------------------------------------------------------------
+// C15: locking discipline of every shared field of package server
+
+//@ fielddefault[C15.discipline] server.serverStream init_only
+//@ field[C15.discipline] server.serverStream.ctx init_only by=server.(*serverStream).SetContext
+//@ field[C15.discipline] server.serverStream.protected.headers guarded_by protected.Mutex
+//@ field[C15.discipline] server.serverStream.protected.headersSent guarded_by protected.Mutex
+//@ field[C15.discipline] server.serverStream.protected.trailers guarded_by protected.Mutex
+//@ field[C15.discipline] server.serverStream.protected.trailersSent guarded_by protected.Mutex
+//@ fielddefault[C15.discipline] server.serverTransportStream init_only
+//@ fielddefault[C15.discipline] server.unaryServerTransportStream init_only
+//@ field[C15.discipline] server.unaryServerTransportStream.headers guarded_by mu
+//@ field[C15.discipline] server.unaryServerTransportStream.headersSent guarded_by mu
+//@ field[C15.discipline] server.unaryServerTransportStream.trailers guarded_by mu
+
+//@ func server.(*unaryServerTransportStream).setHeaderLocked
+//@   inline
+//@   holds server.unaryServerTransportStream.mu
